@@ -466,6 +466,15 @@ def list_appends(ev, sink: P):
         elif e.kind == "call" and e.target is not None and e.target.key().endswith(".extend") and e.target.key()[:-7] in feeders and e.extra.get("args"):
             for it in seq_items(e.extra["args"][0]) or ():
                 out.append(Event("call", e.node, e.guards, e.loops, target=e.target, value=None, extra={"args": [it], "kwargs": []}))
+            ca = e.extra["args"][0].as_atom()
+            if ca and ca[0] == "comp" and ca[1] in ("ListComp", "GeneratorExp") and len(ca) == 4:
+                # sink.extend(ELT for x in xs): one append of ELT per element of xs ('comp' = the generators, an implicit inner loop)
+                out.append(Event("call", e.node, e.guards, e.loops, target=e.target, value=None, extra={"args": [ca[2]], "kwargs": [], "comp": ca[3]}))
+        elif e.kind == "assign" and e.extra.get("aug") == "Add" and e.extra.get("old") is not None and e.extra["old"].key() in feeders \
+                and e.extra.get("delta") is not None:
+            da = e.extra["delta"].as_atom()
+            if da and da[0] == "comp" and da[1] in ("ListComp", "GeneratorExp") and len(da) == 4:
+                out.append(Event("call", e.node, e.guards, e.loops, target=None, value=None, extra={"args": [da[2]], "kwargs": [], "comp": da[3]}))
     return out
 
 
